@@ -250,7 +250,14 @@ func (ch c03) surplus(c *core.Ctx, env *hs.Env, rng *core.Rng, idx int) {
 	// a well-formed binary COPY row for the two columns (would be a fabricated row if decoded)
 	fakeRow := []byte{0, 2, 0, 0, 0, 1, 'x', 0, 0, 0, 4, 0, 0, 0, 7}
 	fakeMsg := pg.Query("sel " + id + " FABRICATED")
-	surplusKinds := [][]byte{[]byte(c03sentinel), append([]byte(c03sentinel), fakeRow...), fakeRow, fakeMsg, append([]byte{0}, []byte(c03sentinel)...)}
+	cstrings := append(append([]byte("sel "+id+"\x00"), []byte("sel "+id+" FABRICATED\x00S\x00")...), 0, 0, 0, 0)
+	surplusKinds := [][]byte{[]byte(c03sentinel), append([]byte(c03sentinel), fakeRow...), fakeRow, fakeMsg, append([]byte{0}, []byte(c03sentinel)...), cstrings, cstrings}
+	// optionally the surplus-carrying message is followed by an empty-bodied message of a
+	// type whose handler reads fields: it must fail on its own (empty) body
+	var follow []byte
+	if rng.Intn(3) == 0 {
+		follow = pg.Raw(core.Pick(rng, []byte("QPBEDC")), nil)
+	}
 	sp := core.Pick(rng, surplusKinds)
 	// with appends surplus inside the declared length
 	with := func(msg []byte, on bool) []byte {
@@ -288,14 +295,20 @@ func (ch c03) surplus(c *core.Ctx, env *hs.Env, rng *core.Rng, idx int) {
 		b := pg.Startup([][2]string{{"user", "u"}})
 		for i, p := range parts {
 			b = append(b, with(p.msg, on && i == target)...)
+			if i == target {
+				b = append(b, follow...)
+			}
 		}
 		return append(b, pg.Terminate()...)
 	}
-	cs := map[string]any{"surplus_on": parts[target].name, "surplus_bytes": len(sp), "copy": copyMode}
+	cs := map[string]any{"surplus_on": parts[target].name, "surplus_bytes": len(sp), "copy": copyMode, "followed_by_empty_message": len(follow) > 0}
 	refOut, refTrace, ok1 := c03run(env, progs, build(false), nil, false)
 	out, trace, ok2 := c03run(env, progs, build(true), nil, false)
 	c.Count("surplus_cases", 1)
-	c.Eval(fmt.Sprintf("surplus %s %d copy=%v", parts[target].name, len(sp), copyMode), true)
+	c.Eval(fmt.Sprintf("surplus %s %d copy=%v follow=%x", parts[target].name, len(sp), copyMode, follow), true)
+	if len(follow) > 0 {
+		c.Count("surplus_followed_by_empty_message", 1)
+	}
 	if !ok1 || !ok2 {
 		c.Violate("wedge", "connection did not end after EOF (surplus case)", "", cs)
 		return
@@ -337,14 +350,29 @@ func (ch c03) accessors(c *core.Ctx, rng *core.Rng, idx int) {
 	next := []byte("NEXT-MESSAGE-SENTINEL\x00\x00\x00\x00\x07tail\x00")
 	typed := rng.Bool()
 	var stream []byte
+	// half of the time a previous message with an unread tail precedes the message under test
+	prev := rng.Bool()
+	if prev {
+		stream = pg.Raw('P', []byte("PREVIOUS-MESSAGE-TAIL\x00\x00\x00\x00\x09unread\x00\x00\x01"))
+	}
 	if typed {
-		stream = pg.Raw('Q', body)
+		stream = append(stream, pg.Raw('Q', body)...)
 	} else {
-		stream = pg.Raw('Q', body)[1:]
+		stream = append(stream, pg.Raw('Q', body)[1:]...)
 	}
 	stream = append(stream, pg.Raw('Q', next)...)
 	r := buffer.NewReader(hs.Quiet, bytes.NewReader(stream), 1<<16)
 	var err error
+	if prev {
+		if _, _, err = r.ReadTypedMsg(); err != nil {
+			c.Violate("read", "previous message not readable", err.Error(), nil)
+			return
+		}
+		if rng.Bool() {
+			r.GetBytes(rng.Intn(9)) // consume a little, leave an unread tail
+		}
+		c.Count("accessor_after_unread_tail", 1)
+	}
 	if typed {
 		_, _, err = r.ReadTypedMsg()
 	} else {
